@@ -138,27 +138,32 @@ func runC13Case[T comparable](c *core.Ctx, d *Dom[T], kind string) {
 		universe = universe[n:]
 		return out
 	}
+	big := 1
+	if len(d.Alpha) >= 200 {
+		big = 12
+		c.Count("pair:operands-with-dozens-to-hundreds-of-members", 1)
+	}
 	var ma, mb []T
 	switch pk {
 	case "disjoint":
-		ma, mb = take(r.Range(1, 6)), take(r.Range(1, 6))
+		ma, mb = take(r.Range(1, 6)*big), take(r.Range(1, 6)*big)
 	case "overlapping":
-		common := take(r.Range(1, 4))
-		ma = append(append([]T{}, common...), take(r.Range(1, 5))...)
-		mb = append(append([]T{}, common...), take(r.Range(1, 5))...)
+		common := take(r.Range(1, 4) * big)
+		ma = append(append([]T{}, common...), take(r.Range(1, 5)*big)...)
+		mb = append(append([]T{}, common...), take(r.Range(1, 5)*big)...)
 	case "a-subset-of-b":
-		ma = take(r.Range(1, 4))
-		mb = append(append([]T{}, ma...), take(r.Range(1, 6))...)
+		ma = take(r.Range(1, 4) * big)
+		mb = append(append([]T{}, ma...), take(r.Range(1, 6)*big)...)
 	case "b-subset-of-a":
-		mb = take(r.Range(1, 4))
-		ma = append(append([]T{}, mb...), take(r.Range(1, 6))...)
+		mb = take(r.Range(1, 4) * big)
+		ma = append(append([]T{}, mb...), take(r.Range(1, 6)*big)...)
 	case "equal", "same-object":
-		ma = take(r.Range(1, 8))
+		ma = take(r.Range(1, 8) * big)
 		mb = append([]T{}, ma...)
 	case "a-empty":
-		mb = take(r.Range(1, 6))
+		mb = take(r.Range(1, 6) * big)
 	case "b-empty":
-		ma = take(r.Range(1, 6))
+		ma = take(r.Range(1, 6) * big)
 	case "both-empty":
 	default:
 		for _, v := range universe {
@@ -337,6 +342,10 @@ func (ar *algRestore[T]) restore() {
 
 func runC13(c *core.Ctx) {
 	kind := []string{"HashSet", "LinkedHashSet", "TreeSet"}[c.Index%3]
+	if (c.Index/3)%53 == 9 {
+		runC13Case(c, IntDom(c.R.Range(200, 600)), kind) // operands with hundreds of members
+		return
+	}
 	if (c.Index/3)%4 == 3 {
 		runC13Case(c, StrDom(c.R.Range(6, 20)), kind)
 		return
